@@ -110,14 +110,29 @@ def graph_case(rng, cid):
                         else:
                             addr[0] += 16
                             xvals[key].append(xval(True, 'g%d' % addr[0], ty_mptr(ty_id('Missing')), [a_int('address', addr[0])]))
+    # which types get a vftable block (its generated <T>Vftable item is registered on the first attempt, also while the type
+    # itself still waits for a by-value dependency); other types may point to the generated item
+    owners = [d[0] for m_ in mods for d in defs[tuple(m_)] if isinstance(d, list) and not isinstance(d[0], Sym) and rng.random() < 0.3]
+    for ow in owners:
+        if rng.random() < 0.5:
+            tgt = rng.choice(struct_names)
+            if tgt == ow:
+                continue     # a pointer to the type's OWN generated vftable struct is an open finding with its own witness case
+            for key, m_ in defs.items():
+                for d in m_:
+                    if isinstance(d, list) and not isinstance(d[0], Sym) and d[0] == tgt:
+                        d[1].append(field(True, 'pv%d' % len(d[1]), ty_cptr(ty_id(ow + 'Vftable'))))
+                        if home[tgt] != home[ow]:
+                            u = path(*(home[ow] + [ow + 'Vftable']))
+                            if u not in uses[tuple(home[tgt])] and path(*home[ow]) not in uses[tuple(home[tgt])]:
+                                uses[tuple(home[tgt])].append(u)
     ents = []
     for m_ in mods:
         ds = []
         for d in defs[tuple(m_)]:
             if isinstance(d, list) and not isinstance(d[0], Sym):
                 stmts = list(d[1])
-                if rng.random() < 0.3:
-                    # a vftable block: its generated <T>Vftable item is registered on every attempt
+                if d[0] in owners:
                     stmts = [vftable([], [fn(True, 'vf', [], [SELF], None)])] + stmts
                 ds.append(type_def(True, d[0], [a_ident('packed')], stmts))
             else:
@@ -152,49 +167,69 @@ def analyse(c):
             if def_is_type(d) and any(tag(s_) == 'vftable' for s_ in type_stmts(d)):
                 # the generated vftable struct counts as a definition (it is never unresolved)
                 by_name.setdefault(def_name(d) + 'Vftable', []).append(('generated',) + tuple(mp + [def_name(d) + 'Vftable']))
+    # A generated <T>Vftable item is registered during T's attempt, after the names of T's fields have been looked up and once
+    # T's first #[base] field (if any) has a known size (the base decides whether T gets a pointer of its own).  Existence of
+    # generated items and resolvability of items are therefore one joint least fixed point.
+    gen_exists = set()        # owners whose generated item is registered
     def lookup(mp, m, nme):
         if nme in BUILTINS: return ('builtin',)
         cands = by_name.get(nme, [])
         vis = []
         for pth in cands:
+            if pth[0] == 'generated' and pth[1:-1] + (pth[-1][:-len('Vftable')],) not in gen_exists:
+                continue
             real = pth[1:] if pth[0] == 'generated' else pth
             if list(real[:-1]) == mp or list(real) in m_uses(m) or list(real[:-1]) in m_uses(m):
                 vis.append(pth)
         if vis and vis[0][0] == 'generated':
             return ('builtin',)
         return vis[0] if vis else None
-    hard = None
-    name_missing = set()     # items with an undefined name in a field / enum base (any position)
-    edges = {}
-    for pth, (mp, m, d) in items.items():
-        edges[pth] = set()
+    def field_info(pth):
+        """-> (all names defined?, by-value edges, by-value edges of the first base field or None)"""
+        mp, m, d = items[pth]
+        ok, edges_, first_base = True, set(), None
         if def_is_type(d):
             for st in type_stmts(d):
                 if stmt_is_field(st):
+                    es = set()
                     for (nme, bv) in type_names(st[3]):
                         b = lookup(mp, m, nme)
-                        if b is None: name_missing.add(pth)
-                        elif bv and b != ('builtin',): edges[pth].add(b)
-                else:
-                    for f in st[2:]:
-                        for a in fn_args(f):
-                            if not isinstance(a, Sym) and any(lookup(mp, m, n_) is None for (n_, _) in type_names(a[2])): hard = hard or 'vfunc-param'
-                        if fn_ret(f) is not None and any(lookup(mp, m, n_) is None for (n_, _) in type_names(fn_ret(f))): hard = hard or 'vfunc-ret'
+                        if b is None: ok = False
+                        elif bv and b != ('builtin',): es.add(b)
+                    edges_ |= es
+                    if first_base is None and has_ident(st[4][1:], 'base'):
+                        first_base = es
         else:
             for (nme, bv) in type_names(enum_base(d)):
                 b = lookup(mp, m, nme)
-                if b is None: name_missing.add(pth)
-                elif b != ('builtin',): edges[pth].add(b)
-    stuck = set(name_missing)
-    # items on or above a by-value cycle, or above a stuck item: least fixed point of "cannot be resolved"
+                if b is None: ok = False
+                elif b != ('builtin',): edges_.add(b)
+        return ok, edges_, first_base
+    owners_ = set(pth for pth, (mp, m, d) in items.items() if def_is_type(d) and any(tag(s_) == 'vftable' for s_ in type_stmts(d)))
     resolved = set()
     changed = True
     while changed:
         changed = False
         for pth in items:
-            if pth in resolved or pth in name_missing: continue
-            if all(e in resolved for e in edges[pth]):
+            ok, es, fb = field_info(pth)
+            if pth in owners_ and pth not in gen_exists and ok and (fb is None or all(e in resolved for e in fb)):
+                gen_exists.add(pth); changed = True
+            if pth not in resolved and ok and all(e in resolved for e in es):
                 resolved.add(pth); changed = True
+    hard = None
+    name_missing = set()
+    edges = {}
+    for pth, (mp, m, d) in items.items():
+        ok, es, fb = field_info(pth)
+        edges[pth] = es
+        if not ok: name_missing.add(pth)
+        if def_is_type(d):
+            for st in type_stmts(d):
+                if not stmt_is_field(st):
+                    for f in st[2:]:
+                        for a_ in fn_args(f):
+                            if not isinstance(a_, Sym) and any(lookup(mp, m, n_) is None for (n_, _) in type_names(a_[2])): hard = hard or 'vfunc-param'
+                        if fn_ret(f) is not None and any(lookup(mp, m, n_) is None for (n_, _) in type_names(fn_ret(f))): hard = hard or 'vfunc-ret'
     stuck = set(items) - resolved
     # hard errors from impl functions / extern values only surface for types that get resolved / after resolution
     for (mp, file, m) in modules_of(c):
@@ -223,6 +258,10 @@ def judge(c, impl, model):
         return fs, info
     items, edges, stuck, hard = analyse(c)
     if find(c, 'expect-any') is not None:
+        return fs, info
+    if find(c, 'witness-own-vftable-in-field') is not None:
+        if cls != 'ok':
+            fs.append(Finding('O', 'C10/all-names-defined-but-rejected/own-generated-vftable-in-field', cid, dump(io2)[:200]))
         return fs, info
     if stuck:
         count(info, 'predicted-stuck')
